@@ -186,13 +186,23 @@ func (m *modeler) applyField(f *field, v reflect.Value, cv *cval, pc polCtx) {
 			v.Set(reflect.ValueOf(c))
 		}
 	case kMapPrim, kMapPtrStruct, kMapStruct:
+		// a map type with InitDefaults (held by value in a struct): the defaults
+		// are applied to the map the field holds -- or the new one -- before
+		// the settings, also without a setting
+		withInit := implementsPtr(f.typ, tIniter)
 		if absent {
+			if withInit {
+				applyInit(v)
+			}
 			return
 		}
 		if v.IsNil() || pc.pol == "replace" {
 			// replace: old dictionaries are replaced, the map holds the new
 			// entries alone (arr-replace concerns lists only)
 			v.Set(reflect.MakeMap(f.typ))
+		}
+		if withInit {
+			applyInit(v)
 		}
 		for k, e := range cv.keys {
 			key := reflect.ValueOf(k)
